@@ -212,6 +212,8 @@ class C13(Property):
         'LaTeX / Unicode / HTML output for text outside the C01 grammar (mutated strings, rejections): correspondence only',
         'freshly created Substance / Species objects share no mutable state with earlier ones and are unaffected by earlier keyword arguments or in-place edits '
         '(operation histories): oracle only — the Lean model is a pure function, aliasing is not expressible in it',
+        'Species.from_formula leaves the caller\'s phases object (tuple / list / dict / OrderedDict / generator) unchanged and gives the same index on repeated '
+        'calls sharing that object (phases histories): oracle only — the model takes phases by value',
         'that the harness\'s Python inverse maps equal the Lean unLatex/unUnicode/unHtml: compared on real outputs only',
     )
     anchors = (('chempy/util/parsing.py', '_formula_to_format'), ('chempy/util/parsing.py', '_subs'),
@@ -265,9 +267,37 @@ class C13(Property):
                 cases.append({'op': 'fmt', 'which': rng.choice(FORMATS), 's': s, 'suffixes': sfx})
             elif r < 0.93:
                 cases.append(self._reaction_case(rng))
-            else:
+            elif r < 0.965:
                 cases.append(self._history_case(rng))
+            else:
+                cases.append(self._phases_history_case(rng))
         return cases
+
+    def _phases_history_case(self, rng):
+        """3-6 Species.from_formula calls sharing ONE phases object, by type of that object (tuple, list, dict, OrderedDict, generator),
+        mixing suffixed and unsuffixed formulas and default_phase_idx None / 0"""
+        ptype = rng.choice(['tuple', 'list', 'list', 'dict', 'odict', 'gen'])
+        r = rng.random()
+        if r < 0.4:
+            keys = ['(s)', '(l)', '(g)']
+        else:
+            keys = rng.sample(['(s)', '(l)', '(g)', '(aq)', '(cr)'], rng.randint(1, 4))
+        if ptype in ('dict', 'odict'):
+            phases = [[k, rng.randint(-1, 6)] for k in keys]
+        else:
+            phases = list(keys)
+        calls = []
+        for _ in range(rng.randint(3, 6)):
+            f = fg.gen_formula(rng, max_depth=rng.randint(0, 1))
+            q = rng.random()
+            if q < 0.35:
+                f['suffix'] = '(aq)'
+            elif q < 0.65:
+                f['suffix'] = rng.choice(keys) if rng.choice(keys) in fg.SUFFIXES else rng.choice(fg.SUFFIXES)
+            elif q < 0.85:
+                f['suffix'] = ''
+            calls.append({'ast': f, 'default': rng.choice([0, 0, None, 5])})
+        return {'op': 'phases_history', 'ptype': ptype, 'phases': phases, 'calls': calls}
 
     def _history_case(self, rng):
         """operation history over Substance/Species.from_formula: constructions with keyword arguments and in-place edits of earlier instances,
@@ -361,7 +391,7 @@ class C13(Property):
             return {'op': 'ast', 'ast': c['ast']}
         if op == 'species':
             return {'op': 'species', 's': c['s'], 'phases': c['phases'], 'default': c['default']}
-        if op == 'history':
+        if op in ('history', 'phases_history'):
             return None                    # stateful: oracle only (the model is a pure function; `substance` / `species` cover single calls)
         if op == 'reaction':
             if any(isinstance(v, dict) for _, v in c['reac'] + c['prod'] + c.get('inact_reac', []) + c.get('inact_prod', [])):
@@ -428,6 +458,71 @@ class C13(Property):
             return self._oracle_reaction(c)
         if op == 'history':
             return self._oracle_history(c)
+        if op == 'phases_history':
+            return self._oracle_phases_history(c)
+        return None
+
+    def _oracle_phases_history(self, c):
+        """repeated Species.from_formula calls with one shared `phases` object: every call gets the index its suffix selects in the phases AS
+        GIVEN by the caller, leaves the caller's object unchanged, and refuses an unselected suffix when default_phase_idx is None"""
+        import collections
+        from chempy import Species
+        ptype, ph = c['ptype'], c['phases']
+        isdict = ptype in ('dict', 'odict')
+        given_keys = [k for k, _ in ph] if isdict else list(ph)
+        given_vals = [v for _, v in ph] if isdict else [i + 1 for i in range(len(ph))]
+
+        def make():
+            if ptype == 'tuple':
+                return tuple(ph)
+            if ptype == 'list':
+                return list(ph)
+            if ptype == 'dict':
+                return dict((k, v) for k, v in ph)
+            if ptype == 'odict':
+                return collections.OrderedDict((k, v) for k, v in ph)
+            return (k for k in list(ph))           # a generator is one-shot by nature: a fresh one per call, same contents
+
+        def snapshot(o):
+            return list(o.items()) if isdict else list(o)
+        shared = None if ptype == 'gen' else make()
+        given = None if ptype == 'gen' else snapshot(shared)
+        fns = real_fns()
+        for n, call_ in enumerate(c['calls']):
+            f, dflt = call_['ast'], call_['default']
+            t = fg.render(f)
+            obj = make() if ptype == 'gen' else shared
+            want = None
+            for k, v in zip(given_keys, given_vals):
+                if t.endswith(k):
+                    want = v
+                    break
+            if want is None:
+                want = dflt
+            o = call(Species.from_formula, t, obj, dflt)
+            where = 'call %d of %d with one shared %s phases=%r: Species.from_formula(%r, default_phase_idx=%r)' % (
+                n + 1, len(c['calls']), ptype, ph, t, dflt)
+            if ptype != 'gen' and (snapshot(shared) != given or type(shared) is not type(make())):
+                return '%s changed the caller\'s phases object to %r' % (where, snapshot(shared))
+            if want is None:
+                if not (is_exc(o) and o[1] == 'ValueError'):
+                    return '%s should raise ValueError (no phase selected, default None), got %r' % (
+                        where, o[1] if is_exc(o) else ('phase_idx', o.phase_idx))
+                continue
+            if is_exc(o):
+                if f['suffix'] and f['suffix'] not in given_keys + ['(aq)']:
+                    continue                       # a suffix that stays in the text may legitimately be rejected by the grammar
+                return '%s raised %s' % (where, o[1])
+            if o.phase_idx != want:
+                return '%s: phase_idx = %r, the suffix selects %r in the phases as given' % (where, o.phase_idx, want)
+            if f['suffix'] in given_keys + ['(aq)', ''] and set(given_keys) <= set(fg.SUFFIXES):
+                for w in FORMATS:
+                    ref = call(fns[w], t)
+                    if not is_exc(ref) and getattr(o, w + '_name') != ref:
+                        return '%s: %s_name = %r, formula_to_%s gives %r' % (where, w, getattr(o, w + '_name'), w, ref)
+                want_comp = fg.composition(int_ast(f))
+                if set(o.composition) != set(want_comp) or any(not close(o.composition[k], v, 1e-12, 0.0) for k, v in want_comp.items()):
+                    return '%s: composition = %r, written %r' % (where, o.composition, {k: str(v) for k, v in want_comp.items()})
         return None
 
     def _oracle_history(self, c):
@@ -621,6 +716,8 @@ class C13(Property):
                                              ':hyd' if len(f['parts']) > 1 else '', ':pre' if f['prefixes'] else '', ':sfx' if f['suffix'] else '')
         if op == 'history':
             return 'history:%dsteps' % len(c['steps'])
+        if op == 'phases_history':
+            return 'phases_history:%s:%dcalls' % (c['ptype'], len(c['calls']))
         if op == 'reaction':
             return 'reaction:%s:%s' % (c['printer'], 'eq' if c['eq'] else 'rxn')
         if op == 'species':
@@ -632,6 +729,20 @@ class C13(Property):
         return len(s) >= 2
 
     def shrink(self, case, still_fails):
+        if case.get('op') == 'phases_history':
+            calls = list(case['calls'])
+            changed = True
+            while changed and len(calls) > 1:
+                changed = False
+                for i in range(len(calls)):
+                    c2 = dict(case, calls=calls[:i] + calls[i + 1:])
+                    try:
+                        if still_fails(c2):
+                            calls, changed = c2['calls'], True
+                            break
+                    except Exception:
+                        pass
+            return dict(case, calls=calls)
         if case.get('op') == 'history':
             steps = list(case['steps'])
             changed = True
